@@ -27,6 +27,7 @@ import (
 
 	"istio.io/istio/pilot/pkg/features"
 	"istio.io/istio/pkg/security"
+	"istio.io/istio/pkg/util/sets"
 	_ "verifharness/internal/quiet"
 	"verifharness/internal/wire"
 )
@@ -113,7 +114,8 @@ func execOps(stream, in, outp string) {
 
 // pinFeatures fixes every environment-derived istio feature flag that changes what the streams print, so
 // that the caller's environment (UNSAFE_PILOT_ENABLE_RUNTIME_ASSERTIONS, PILOT_ENABLE_REMOTE_CREDENTIALS_CONTROLLER,
-// XDS_AUTH, XDS_AUTH_PLAINTEXT, PILOT_ENABLE_XDS_IDENTITY_CHECK, PILOT_SCOPE_GATEWAY_TO_NAMESPACE) cannot
+// XDS_AUTH, XDS_AUTH_PLAINTEXT, PILOT_ENABLE_XDS_IDENTITY_CHECK, PILOT_SCOPE_GATEWAY_TO_NAMESPACE, ENABLE_DEBUG_ENDPOINT_AUTH,
+// ENABLE_XDS_API_GENERATOR_AUTH, DEBUG_ENDPOINT_AUTH_ALLOWED_NAMESPACES) cannot
 // influence a run; ops that exercise a flag set it explicitly.
 func pinFeatures() {
 	features.EnableUnsafeAssertions = false
@@ -122,6 +124,10 @@ func pinFeatures() {
 	features.EnableXDSIdentityCheck = true
 	features.ScopeGatewayToNamespace = false
 	security.AuthPlaintext = false
+	features.EnableDebugEndpointAuth = true
+	features.EnableXDSAPIGeneratorAuth = true
+	// DEBUG_ENDPOINT_AUTH_ALLOWED_NAMESPACES: the default (unset) yields the set {""}
+	features.DebugEndpointAuthAllowedNamespaces = sets.New("")
 }
 
 // fanOut runs the slow streams (sds, stream: one fake Kubernetes world / one real xDS stream per case or op) as
